@@ -7,10 +7,12 @@
 
    Staging (what is proved / what is covered by the correspondence against the executable Spec only):
    - stage 1+2 PROVED: C01_pattern for BGP / group / UNION / GRAPH iri|var / VALUES+UNDEF / FILTER / BIND / nested groups
-     consisting of a single BIND of constants with a fresh target / sub-selects without LIMIT - explicit projection or SELECT
+     consisting of a single BIND of constants / sub-selects without LIMIT - explicit projection or SELECT
      star with [DISTINCT] [ORDER BY], or GROUP BY + SUM / MIN / MAX / AVG in the legal shape (group keys and aggregate aliases
-     projected) -, FROM / FROM NAMED, any emitted plan; its hypotheses are decidable syntactic ones plus a typing condition on the
-     dataset view (C01_agree_syntactic, C01_pattern_syntactic);
+     projected) -, FROM / FROM NAMED, any emitted plan; its hypotheses are the fragment (fragB, ok_in: outside the two open
+     classes), BIND targets fresh in their group (legal SPARQL) and a typing condition on the dataset view for ORDERING comparisons
+     (C01_agree_syntactic, C01_pattern_syntactic) - since the repairs 1fdcd07 / 56f413c the engine's FILTER and BIND evaluation
+     coincide with the algebra's otherwise (C01_filter_is_algebra, C01_bind_is_algebra);
    - stage 3 PROVED: C01_answer (SELECT [DISTINCT] .. [ORDER BY] without LIMIT / aggregates: multiset of rows and key
      order), C01_answer_agg (the same with GROUP BY / aggregates in the legal shape), C01_answer_limit (LIMIT with or without
      ORDER BY is a legal cut), the aggregate values (the C01_agg theorems), C01_cut_determined / C01_cut_is_algebra (sub-select with
@@ -25,8 +27,8 @@
      (p2) FILTER / BIND inside GRAPH ?g that mention ?g while the group's own pattern binds ?g (when it does not, such a
           FILTER is not wellscoped and outside the property);
      (p3) single-element groups nested twice or more around a lone BIND ({ { BIND } } as an element of a group); the other
-          cases of single-element groups are settled: a nested group consisting of a single BIND of constants with a fresh target
-          is proved, with a bound target it is class C01-bind-target-sibling, with a variable argument - or consisting of a single
+          cases of single-element groups are settled: a nested group consisting of a single BIND of constants is proved whatever
+          binds its target (the repaired C01-bind-target-sibling), with a variable argument - or consisting of a single
           FILTER, which always mentions a variable - it is not wellscoped (the group binds nothing) and outside the property;
      (p4) ORDER BY keys over columns that mix numbers with other terms or are partly unbound (C01_answer_sorted,
           C01_answer_limit and C01_cut_* assume the comparator transitive on the solutions at hand: trans_on, decidable,
@@ -38,8 +40,8 @@ Require Import KV.Sparql.Base KV.Sparql.Syntax KV.Sparql.MuProofs KV.Sparql.Join
 Require Import Permutation Sorted.
 
 (* Stage 1, the input-propagation lemma: executing any plan the optimizer may emit for l on incoming rows that bind at
-   most `inb` is joining those rows with the denotation of l.  (ok_in: the complement of the classes
-   C01-undef-filter-sibling and C01-bind-target-sibling, computed on the lowered query.) *)
+   most `inb` is joining those rows with the denotation of l.  (ok_in: the complement of the class
+   C01-undef-filter-sibling, computed on the lowered query; a BIND target may be bound by an incoming row since 1fdcd07.) *)
 Theorem C01_exec_input_join :
   forall st ev, named_nodup ev -> store_sets st ->
   forall l p, implementsb l p = true ->
@@ -54,9 +56,10 @@ Print Assumptions C01_exec_input_join.
    every visible graph including empty ones).
    fragB: no sub-select under GRAPH ?g (class C01-subselect-in-graph-var), sub-selects without aggregate / GROUP BY / LIMIT,
    nested single-element groups only of a constant BIND with a fresh target, see Bridge.v.
-   agree: the engine's two-valued FILTER evaluation and its CONCAT agree with the algebra's error-propagating ones on
-   the rows the algebra feeds them - implied by the absence of the classes C01-not-of-error and C01-bind-arg-unbound
-   together with integer-typed ordering comparisons (C01_agree_syntactic below). *)
+   agree: the engine's FILTER evaluation and its BIND agree with the algebra's on the rows the algebra feeds them.  Since the
+   repairs 56f413c (three-valued FILTER) and 1fdcd07 (CONCAT) this only fails when an ordering comparison sees a non-integer
+   (the engine reads it as 0, the algebra raises a type error) or when a BIND target is already in scope in its own group (not
+   legal SPARQL, not wellscoped): C01_agree_syntactic below. *)
 Theorem C01_lowering_is_algebra : forall ds q, dataset_ok ds ->
   let vw := mk_view ds (q_from q) (q_from_named q) in
   let ev := mk_eview ds (q_from q) (q_from_named q) in
@@ -78,9 +81,8 @@ Theorem C01_pattern : forall ds q p, dataset_ok ds ->
 Proof. exact pattern_correct. Qed.
 Print Assumptions C01_pattern.
 
-(* The semantic hypothesis `agree` follows from syntactic ones: noerr (the complement of the classes C01-not-of-error and
-   C01-bind-arg-unbound: every variable under a `!` is certainly bound by the filter's group, every BIND argument by what
-   precedes the BIND, BIND targets are fresh) and typed (ordering comparisons see integers only: integer constants, and every
+(* The semantic hypothesis `agree` follows from syntactic ones: noerr (all that is left of it: a BIND target is not in scope
+   before the BIND in its own group - SPARQL's restriction on BIND) and typed (ordering comparisons see integers only: integer constants, and every
    binding occurrence of a compared variable is the object of a pattern whose constant predicate has only integer objects in
    the dataset view, or an integer / UNDEF VALUES column). *)
 Theorem C01_agree_syntactic : forall vw w, fragB None w = true -> noerr w = true -> typed vw w = true -> agree vw None w = true.
@@ -104,11 +106,12 @@ Proof. exact eval_scope. Qed.
 Print Assumptions C01_scope.
 
 (* The nested group { BIND(CONCAT(constants) AS ?v) }: the parser flattens it into the enclosing group, where the engine
-   binds ?v in place; that is the algebra's join with the group's one-row answer as long as no row binds ?v already
-   (otherwise: class C01-bind-target-sibling).  Used by C01_pattern through fragB / lone_bind_ok. *)
+   binds ?v in place or - when a row binds ?v already - keeps the row only if the values agree (since 1fdcd07); that IS the
+   algebra's join with the group's one-row answer, whatever the rows bind (the repaired finding C01-bind-target-sibling).
+   Used by C01_pattern through fragB / lone_bind_ok. *)
 Theorem C01_const_bind_group : forall vw active args v G,
-  barg_vars args = [] -> all_wf G -> (forall b, In b G -> lookup b v = None) ->
-  join G (eval vw active (PGroup [PBind args v])) = map (bind_row args v) G.
+  barg_vars args = [] -> all_wf G ->
+  join G (eval vw active (PGroup [PBind args v])) = flat_map (ebind args v) G.
 Proof. exact const_bind_group. Qed.
 Print Assumptions C01_const_bind_group.
 
@@ -118,7 +121,7 @@ Theorem C01_select_star : forall vw active w m, In m (eval vw active w) -> restr
 Proof. exact select_star_id. Qed.
 Print Assumptions C01_select_star.
 
-(* The five known findings, on the model: each witness is implemented by the default plan, lies in its class, and the
+(* The two open findings, on the model: each witness is implemented by the default plan, lies in its class, and the
    model's answer is NOT the algebra's. *)
 Theorem C01_subselect_in_graph_var_refuted :
   wimpl wq_a = true /\ in_class 1 wq_a = true /\ ~ Permutation (wrun wds1 wq_a) (wspec wds1 wq_a).
@@ -128,18 +131,45 @@ Theorem C01_undef_filter_sibling_refuted :
   wimpl wq_b = true /\ in_class 2 wq_b = true /\ ~ Permutation (wrun wds0 wq_b) (wspec wds0 wq_b).
 Proof. exact refuted_b. Qed.
 Print Assumptions C01_undef_filter_sibling_refuted.
-Theorem C01_bind_target_sibling_refuted :
-  wimpl wq_c = true /\ in_class 3 wq_c = true /\ ~ Permutation (wrun wds1 wq_c) (wspec wds1 wq_c).
-Proof. exact refuted_c. Qed.
-Print Assumptions C01_bind_target_sibling_refuted.
-Theorem C01_not_of_error_refuted :
-  wimpl wq_d = true /\ in_class 4 wq_d = true /\ ~ Permutation (wrun wds1 wq_d) (wspec wds1 wq_d).
-Proof. exact refuted_d. Qed.
-Print Assumptions C01_not_of_error_refuted.
-Theorem C01_bind_arg_unbound_refuted :
-  wimpl wq_e = true /\ in_class 5 wq_e = true /\ ~ Permutation (wrun wds0 wq_e) (wspec wds0 wq_e).
-Proof. exact refuted_e. Qed.
-Print Assumptions C01_bind_arg_unbound_refuted.
+
+(* Regressions for the repaired findings C01-bind-target-sibling, C01-bind-arg-unbound (fix 1fdcd07) and C01-not-of-error (fix
+   56f413c): each witness is now inside the hypotheses of C01_pattern, the model's answer is the algebra's, and the repaired
+   component differs from its pre-fix variant (bind_row: CONCAT read an unbound argument as "" and overwrote the target;
+   cond_eval_2v: two-valued FILTER evaluation, `!` of an erroring comparison true). *)
+Theorem C01_bind_target_sibling_regression :
+  wimpl wq_c = true /\ proved_fragment wq_c = true /\ agree (mk_view wds1 [] []) None (sel_where (q_sel wq_c)) = true /\
+  wrun wds1 wq_c = wspec wds1 wq_c /\ wspec wds1 wq_c = [] /\
+  ebind [BC "zz"%string] 1%N [(0%N, E "s1"); (1%N, E "s2")] = [] /\
+  bind_row [BC "zz"%string] 1%N [(0%N, E "s1"); (1%N, E "s2")] = [(0%N, E "s1"); (1%N, "zz"%string)].
+Proof. exact fixed_c. Qed.
+Print Assumptions C01_bind_target_sibling_regression.
+Theorem C01_not_of_error_regression :
+  wimpl wq_d = true /\ proved_fragment wq_d = true /\ agree (mk_view wds1 [] []) None (sel_where (q_sel wq_d)) = true /\
+  wrun wds1 wq_d = wspec wds1 wq_d /\ wspec wds1 wq_d = [] /\
+  let f := ENot (ECmp OEq 1%N (TC (E "s2"))) in let row := [(0%N, E "s1"); (2%N, "5"%string)] in
+  cond_eval f row = false /\ holds f row = false /\ cond_eval_2v f row = true.
+Proof. exact fixed_d. Qed.
+Print Assumptions C01_not_of_error_regression.
+Theorem C01_bind_arg_unbound_regression :
+  wimpl wq_e = true /\ proved_fragment wq_e = true /\ agree (mk_view wds0 [] []) None (sel_where (q_sel wq_e)) = true /\
+  wrun wds0 wq_e = wspec wds0 wq_e /\ wspec wds0 wq_e = [[(0%N, "zz"%string); (5%N, "zzx"%string)]; []] /\
+  ebind [BV 0%N; BC "x"%string] 5%N [] = [[]] /\ bind_row [BV 0%N; BC "x"%string] 5%N [] = [(5%N, "x"%string)].
+Proof. exact fixed_e. Qed.
+Print Assumptions C01_bind_arg_unbound_regression.
+
+(* The engine's three-valued FILTER evaluation IS the algebra's wherever ordering comparisons see integers only (the engine
+   reads a non-number as 0 in an ordering comparison, the algebra raises a type error) ... *)
+Theorem C01_filter_is_algebra : forall e m,
+  (forall x t, In x (ord_vars_e e) -> lookup m x = Some t -> is_int t = true) -> ord_consts_e e = true ->
+  cond_eval3 e m = eval_expr e m.
+Proof. exact expr_agree3. Qed.
+Print Assumptions C01_filter_is_algebra.
+
+(* ... and BIND on a row that does not bind the target is the algebra's extend - including the error case: an unbound
+   argument leaves the target unbound. *)
+Theorem C01_bind_is_algebra : forall args v m, lookup m v = None -> ebind args v m = [extend args v m].
+Proof. exact ebind_extend. Qed.
+Print Assumptions C01_bind_is_algebra.
 
 (* Regression for the repaired finding C01-group-by-without-aggregate (fix bc03712): a top-level GROUP BY without an
    aggregate yields one row per group, the algebra's answer; the pre-fix behaviour (no grouping) yields three rows. *)
@@ -155,11 +185,8 @@ Theorem C01_empty_sum_regression : forall x, eagg_value ASum x [] = Some "0"%str
 Proof. exact empty_sum_regression. Qed.
 Print Assumptions C01_empty_sum_regression.
 
-(* ... and each witness violates a hypothesis of C01_pattern *)
-Theorem C01_witnesses_outside :
-  proved_fragment wq_a = false /\ proved_fragment wq_b = false /\ proved_fragment wq_c = false /\
-  agree (mk_view wds1 [] []) None (sel_where (q_sel wq_d)) = false /\
-  agree (mk_view wds0 [] []) None (sel_where (q_sel wq_e)) = false.
+(* ... and each open witness violates a hypothesis of C01_pattern *)
+Theorem C01_witnesses_outside : proved_fragment wq_a = false /\ proved_fragment wq_b = false.
 Proof. exact witnesses_outside. Qed.
 Print Assumptions C01_witnesses_outside.
 
